@@ -106,6 +106,9 @@ def run(ctx):
                           "a\tb   \n", "\ta   \n", "a\tb \n", "some\ttext   \nx\n", "- a\tb   \n", "a\tb   \n\n\n\nc \n"]))  # one line that two level-0 line fixers both rewrite
     docs += ["\n\n".join("#" * l + " " + "abc"[i] for i, l in enumerate(ls)) + "\n" for ls in itertools.product((1, 2, 3, 4, 5), repeat=3)]   # every ladder of three heading levels
     docs += ["# a\n\n#### b\n\n##### c\n\n###### d\n", "1. one\n3.  three\nx  \n", "1. one\n3.  three\n", "- a\n     - b\n\n       b2\n   - c\n\n     c2\n"]
+    # neighbouring list items with different markers at different indentations (where unifying the marker changes which items are siblings)
+    docs += [f"{m1} a\n{' ' * i}{m2} b\n" for m1 in "-*+" for m2 in "-*+" for i in range(4) if m1 != m2 or i]
+    docs += ["* a\n* b\n - c\n - d\n", "- a\n - b\n  * c\n", "1. a\n 1. b\n", "- a\n\n * b\n"]
     docs = list(gen.uniq(docs))
     configs = [("default", [], [])]
     configs += [("only:" + r, [r], [x for x in allids if x != r]) for r in fixers]
